@@ -847,6 +847,11 @@ func search(c *common.Ctx, res *common.Result, depth, capScopes int, alpha func(
 				return
 			}
 			nd := frontier[i]
+			if nd.h.Cfg >= 4 && d > depth-1 {
+				// the two chain start states are already two to three calls deep:
+				// they are explored one level less than the initial states
+				return
+			}
 			base, bd := build(nd.h)
 			if bd != "" {
 				return // already reported when first reached
@@ -962,7 +967,7 @@ func init() {
 		ID: "C12", Level: "model_checking", Run: run, Coverage: coverage, Replay: replay,
 		Assumptions: []string{
 			"values are int64 1/2, one addressable cell and module scopes; types int64/string; names a, b, a.b, m",
-			"at most 4 (quick) / 5 (thorough) live scope handles; histories up to depth 3 / 4 over the full alphabet and depth 5 over the state-changing calls",
+			"at most 4 (quick) / 5 (thorough) live scope handles; histories up to depth 3 / 4 over the full alphabet and depth 5 over the state-changing calls from the four initial configurations, one level less from the two chain start states (a three-scope chain; root > module > inner scope)",
 			"error messages are not compared, only error-vs-success and the identity of ErrSymbolContainsDot",
 			"GetEnvFromPath resolves its first element to the nearest enclosing binding that is a module (the walk the code spells out)",
 		},
